@@ -168,7 +168,7 @@ def make_cases(chk):
                 if use_c:
                     svc = op['osolv']
         gens.append(g)
-    return whole_stock_cases(chk) + gens
+    return whole_stock_cases(chk) + gen.twin_lot_cases(chk.seed, 'solfrom') + gens
 
 
 def whole_stock_cases(chk):
